@@ -8,13 +8,13 @@ TECH = "Lean 4 theorems about a hand-written carrier-polymorphic model; model ti
 # id: (claimed?, what the theorems carry, level_note = what is NOT carried by a theorem / trusted)
 P = {
  "C01": ("E: fold of Variance.add/Mean.add = (n, mean, sum (x-mean)^2) for every list; accessors = textbook variances; permutation invariance. R0: sum_2 >= 0 under any monotone rounding. R2: forward-error bound of the running mean (10.1 n u M) for every stream length.",
-         "The forward-error envelope is proved (standard model of rounding, no overflow) for mean() and, in C01b, for sum_2 / population_variance / sample_variance of add-only streams (linear in kappa, with an explicit second-order term n^2 u^2 M^2, so the corner n=1e6, kappa=1e12 is covered by the measured envelope only); variance_of_mean and error() follow by one division / square root and are measured. R-carrier theorems assume IEEE rounding is monotone / has relative error <= 2^-53 and no overflow. Correspondence Model[Float]=impl is checked on sampled operations, not proved."),
+         "The forward-error envelope is proved (standard model of rounding, no overflow) for mean() and, in C01b, for sum_2 / population_variance / sample_variance of add-only streams (linear in kappa, with an explicit second-order term n^2 u^2 M^2, so the corner n=1e6, kappa=1e12 is covered by the measured envelope only); variance_of_mean and error() are proved in C01c (rounded square root as a parameter). R-carrier theorems assume IEEE rounding is monotone / has relative error <= 2^-53 and no overflow. Correspondence Model[Float]=impl is checked on sampled operations, not proved."),
  "C02": ("E: (canon xs).merge (canon ys) = canon (xs++ys) for Mean..Kurtosis and define_moments! of every order; hence every binary merge tree over every chunking (empty and one-element chunks included) evaluates to canon of the concatenation; total length exact.",
-         "R2 (C02b, C02c): the forward-error bounds of mean() (11 n u M) and of sum_2 / population_variance / sample_variance (linear in kappa, explicit second-order term) are proved through every merge tree. For the higher moments the envelope through merges is measured against the exact oracle, not proved. Correspondence checked on enumerated/sampled trees."),
+         "R2 (C02b, C02c): the forward-error bounds of mean() (11 n u M) and of sum_2 / population_variance / sample_variance (linear in kappa, explicit second-order term) are proved through every merge tree. C02d-g: variance_of_mean / error, the stored third- and fourth-order sums (C02e, C02f) and the accessors skewness() / kurtosis() (C02g) are proved through every merge tree as well, with tree-dependent scales (V3T, V4T) and constants far above the 16 that the exact oracle checks on every run; for define_moments! entries after merges the envelope is measured, not proved. Correspondence checked on enumerated/sampled trees."),
  "C03": ("E/Real: Skewness/Kurtosis folds = canon (n, mean, S2, S3, S4); skewness() = m3/m2^1.5, kurtosis() = m4/m2^2-3 for non-zero spread; re-exported accessors = C01's.",
-         "C03b: a forward-error bound linear in kappa is proved for the stored third-order sum (add-only; constant 280 vs the checked 16); for skewness()/kurtosis() themselves and for sum_4 the envelope is measured, not proved; sqrt modelled as Real.sqrt."),
+         "C03b-e: forward-error bounds linear in kappa are proved for the stored third- and fourth-order sums and for the accessors skewness() / kurtosis() on add-only streams (constants 280, 132128, 310, 132161 vs the checked 16; rounded square root as a parameter of the theorem); the constants the oracle checks are measured, not proved."),
  "C04": ("E: define_moments! add and merge of arbitrary order N preserve canon (binomial shift lemma, IterBinomial exact); central_moment(p) = m_p, standardized_moment(p) = m_p/sigma^p for all p <= N; agreement with Mean..Kurtosis as a corollary.",
-         "Envelope measured. u64 modelled as Nat (IterBinomial overflows only for N >= 62; counts < 2^53)."),
+         "C04c-e: forward-error bounds linear in kappa are proved for the second-, third- and fourth-order entries of define_moments! of every order on add-only streams (constants 8, 400, 181676); entries of order >= 5 and all entries after merges are measured against the exact oracle, not proved. u64 modelled as Nat (IterBinomial overflows only for N >= 62)."),
  "C05": ("O+order: under sorted marker heights, Quantile.add = the P-square step of the paper (cell search and position increments equal the order-free specification; marker 0 never moves), any carrier arithmetic; invariant n0 = 1, n4 = count.",
          "C05b: sortedness of the heights and model run = P-square run are also proved under rounded arithmetic (monotone idempotent rounding, relative error <= 1/4, exact small-integer casts, representable observations, no overflow); B.3 formulas are the same arithmetic in model and spec by the property's own wording. Overflow of the marker arithmetic is outside the theorems (see the C15 known finding)."),
  "C06": ("O+order: libcore's binary search contract (last equal index / partition point) on sorted edges; find = the unique half-open bin; NaN sample = out of range; add increments exactly that bin; totals = number of accepted adds.",
@@ -22,11 +22,11 @@ P = {
  "C07": ("E+floor: for 1..4 observations quantile() = exact sample quantile of the sorted sample; permutation invariant; p=0 min, p=1 max.",
          "float_ord sort modelled as a sort by a strict total order; ceil/conv_nearest modelled by Int.ceil."),
  "C08": ("E: weighted mean = sum wx / sum w, sum_weights, sum_weights_sq, effective_len, variance_of_weighted_mean formulas for every stream with non-negative weights and every merge tree; zero-weight observations change only the unweighted part (any position, first included).",
-         "Envelope measured, not proved."),
+         "C08b-d: forward-error bounds are proved for the weighted mean (8 n u M), the weighted sums, effective_len and variance_of_weighted_mean / error, add-only and through every merge tree (standard model of rounding, non-negative weights); the tighter constants the oracle checks are measured."),
  "C09": ("E/Real: Covariance add/merge preserve canon (means, Sxx, Syy, Sxy) for every list of pairs and every merge tree; normalisations; x/y swap symmetry; |pearson| <= 1 (Cauchy-Schwarz).",
-         "C09b: forward-error bounds for sum_x_2, sum_y_2, sum_prod, the variances and covariances of add-only pair streams are proved (standard model of rounding; one first-order term u Mx My that vanishes under IEEE exactness of the first mean); through merges and for pearson the envelope is measured."),
+         "C09b: forward-error bounds for sum_x_2, sum_y_2, sum_prod, the variances and covariances of add-only pair streams are proved (standard model of rounding; one first-order term u Mx My that vanishes under IEEE exactness of the first mean); C09c-e: the same through every merge tree, and for pearson (48 n kappa u); the tighter constants the oracle checks are measured."),
  "C10": ("E/Real: sample_variance = population_variance*n/(n-1) for all five types; variance_of_mean, error; sample_skewness = sqrt(n(n-1))/(n-2) m3/m2^1.5 (n>=3); sample_excess_kurtosis = (n-1)/((n-2)(n-3)) ((n+1)(m4/m2^2-3)+6) (n>=4); small-n sentinels.",
-         "Envelope measured; powf(.,1.5) compared within 8 ulp (libm vs C pow)."),
+         "C10b (+ C04c-e): every bias-corrected accessor is proved accurate for an arbitrary state in terms of the errors of the stored sums, and fully instantiated for add-only streams of Variance / Skewness / Kurtosis / define_moments! (powf(.,1.5) enters with its own accuracy parameter); after merges of define_moments! estimators the envelope is measured. powf(.,1.5) compared within 8 ulp (libm vs C pow)."),
  "C11": ("O (any carrier): merge a new = a and merge new a = a as structure equalities for every state a of every Merge type; len(merge a b) = len a + len b; is_empty iff len = 0; merge returns a new value and cannot modify its argument.",
          "WeightedMeanWithError / Min / Max need x+0=x resp. min(x,inf)=x: true of IEEE away from -0.0 / NaN, stated as hypotheses."),
  "C12": ("O+order: from_ranges accepts exactly the lists whose first LEN+1 values exist, are not NaN and are non-decreasing, with the error of the first offending position; edges returned unchanged, counts zero. R0: with_const_width edges are non-decreasing and edge 0 = start under any monotone rounding.",
